@@ -709,8 +709,8 @@ def main(run):
     specs.append(mk_str())
     specs.append(mk_user())
 
-    per_spec = run.scale(28, 330)
-    n_ops = run.scale(22, 260)
+    per_spec = run.scale(28, 220)
+    n_ops = run.scale(22, 170)
     ktup = run.scale(3, 5)
     try:
         for spec in specs:
@@ -865,7 +865,7 @@ def main(run):
                 except Unsupported:
                     pass
             if well_formed(nodes):
-                if st != ("ok", printer(gp, nodes, spec)):
+                if st[0] != "ok" or "".join(st[1].split()) != "".join(printer(gp, nodes, spec).split()):
                     run.oracle_violation("str(tree) is not the prefix tree printed as name(a1, ..., an)", case, observed=st)
 
         # ------------------------------------------------------------------ renameArguments
